@@ -94,14 +94,18 @@ theorem addHierarchy_UN (lim : Option Nat) (g : PGraph Str) (ps : List Str) (c :
   simp only
   exact edgeFold_UN lim true _ _ (UN_congr (nodeFold_edges lim ps g) h)
 
-theorem addImport_UN (lim : Option Nat) (g : PGraph Str) (i : ImportRec) (h : UN g) : UN (addImport lim g i) := by
+theorem addImport_UN (lim : Option Nat) (known : List Str) (g : PGraph Str) (i : ImportRec) (h : UN g) :
+    UN (addImport lim known g i) := by
   unfold addImport
   simp only
-  exact edgeFold_UN lim true _ _ (addHierarchy_UN lim _ _ _ (createEdge_UN lim g _ _ false h))
+  refine edgeFold_UN lim true _ _ (addHierarchy_UN lim _ _ _ ?_)
+  split
+  · exact h
+  · exact createEdge_UN lim g _ _ false h
 
 theorem buildGraph_UN (mods : List Str) (imps : List ImportRec) (lim : Option Nat) : UN (buildGraph mods imps lim) := by
   unfold buildGraph
-  apply foldl_inv (addImport lim) UN _ (fun g x _ h => addImport_UN lim g x h)
+  apply foldl_inv (addImport lim _) UN _ (fun g x _ h => addImport_UN lim _ g x h)
   unfold addAllModules
   apply foldl_inv _ UN _ (fun g x _ h => addHierarchy_UN lim _ _ _ (UN_congr (createNode_edges lim g x) h))
   exact ⟨fun x hx => (by cases hx), List.nodup_nil⟩
@@ -109,7 +113,7 @@ theorem buildGraph_UN (mods : List Str) (imps : List ImportRec) (lim : Option Na
 theorem buildGraph_nodes_nodup (mods : List Str) (imps : List ImportRec) (lim : Option Nat) :
     (buildGraph mods imps lim).nodes.Nodup := by
   unfold buildGraph
-  apply foldl_inv (addImport lim) (fun g => g.nodes.Nodup) _ (fun g x _ h => addImport_nodup lim g x h)
+  apply foldl_inv (addImport lim _) (fun g => g.nodes.Nodup) _ (fun g x _ h => addImport_nodup lim _ g x h)
   unfold addAllModules
   apply foldl_inv _ (fun g => g.nodes.Nodup) _
     (fun g x _ h => addHierarchy_nodup lim _ _ _ (createNode_nodup lim g x h))
